@@ -172,6 +172,10 @@ def auto_discharge(b, e):
     if "ops_local" in e:
         e = dict(e, ops=e["ops_local"])     # the dominating facts of a closure body are in its own term space
     k = e["kind"]
+    if k == "silent_wrap" and e.get("callee", "").split("::")[-1].startswith(("wrapping_", "saturating_")):
+        # explicitly non-panicking arithmetic cannot crash in any build; whether the wrapped / saturated VALUE is right is the
+        # business of the property that consumes it (C01 containment, C09 range form, ..), not of "no guest-triggered crash"
+        return "explicitly wrapping / saturating arithmetic: never panics, in checked or unchecked builds"
     if k.startswith("Overflow:Sh"):
         # cond: rhs < BITS
         rhs = deep_strip(e["ops"][1])
